@@ -114,7 +114,13 @@ def _scores_model(case, obs):
                 continue
             col = obs["cols"][m]
             name = "rid" if col == 0 else "feat%d" % (col - 1)
-            raw.append([int(v) for v in f["data"][name]])
+            kind = case.get("est_kind", "col")
+            if kind == "const":
+                raw.append([0 for _ in f["data"][name]])
+            elif kind == "neg":
+                raw.append([-int(v) for v in f["data"][name]])
+            else:
+                raw.append([int(v) for v in f["data"][name]])
         lines.append("c02.brew_scores %s %s %s %s %s %s %s" % (
             lib.b(case.get("est_mode", "decision") == "decision"), lib.z(c), lib.z(k), lib.q(thr),
             lib.lst(obs["keys"][j]), lib.lst(f["targets"], lib.b), lib.lst(raw, lambda r: lib.lst(r))))
